@@ -355,6 +355,31 @@ Theorem c12_relogin_chain_never_outlives :
 Proof. exact chain_never_outlives. Qed.
 Print Assumptions c12_relogin_chain_never_outlives.
 
+(* the same over HISTORIES: a list of logins, each with its own session, environment and clock,
+   each presenting either an independently obtained secret ([Indep]) or the token handed back by
+   an earlier login of the list ([Earlier j]); [descends reqs i k] = login k presents the token of
+   a login that presents the token of ... login i.  Whatever else happens in the history, a token
+   that descends from a restricted one is restricted and does not expire later, ... *)
+Theorem c12_relogin_history :
+  forall (mac : list N -> list N -> list N) c reqs i k ti tk,
+  (forall r, In r reqs -> prompt (rq_clk r)) ->
+  descends reqs i k ->
+  out_tok (nth i (history mac c reqs) no_out) = Some ti ->
+  out_tok (nth k (history mac c reqs) no_out) = Some tk ->
+  tok_restricted ti = true ->
+  tok_restricted tk = true /\ tok_expiry tk <= tok_expiry ti.
+Proof. exact history_restricted. Qed.
+Print Assumptions c12_relogin_history.
+
+(* ... and the login that presents it leaves its session as it was *)
+Theorem c12_relogin_history_never_authenticates :
+  forall (mac : list N -> list N -> list N) c reqs j k r tj,
+  nth_error reqs k = Some r -> rq_src r = Earlier j -> (j < k)%nat ->
+  out_tok (nth j (history mac c reqs) no_out) = Some tj -> tok_restricted tj = true ->
+  fst (nth k (history mac c reqs) no_out) = rq_sess r.
+Proof. exact history_never_authenticates. Qed.
+Print Assumptions c12_relogin_history_never_authenticates.
+
 (* the statement without the promptness premise *)
 Definition c12_relogin_never_outlives_statement : Prop := relogin_never_outlives_statement.
 
@@ -507,3 +532,19 @@ Example c12_ex_relogin :
   | _ => False
   end.
 Proof. vm_compute. repeat split. Qed.
+
+(* a history of three logins, the second and third presenting what the previous one handed back *)
+Example c12_ex_history :
+  let clk n := mkClk (wT + n * second) (wT + n * second + 20000) (wT + n * second + 900000) in
+  let rq s n := mkRq s wenv (mkSess 0 0) (clk n) in
+  let reqs := [rq (Indep (SecToken wtok)) 100; rq (Earlier 0%nat) 1000; rq (Earlier 1%nat) 3000] in
+  descends reqs 0 2 /\
+  match map out_tok (history wmac wcfg reqs) with
+  | [Some a; Some b; Some d] => tok_expiry d = tok_expiry wtok /\ tok_restricted d = true /\ a = b /\ b = d
+  | _ => False
+  end.
+Proof.
+  split.
+  - eapply desc_step; [eapply desc_step; [apply desc_refl| | |]| | |]; try reflexivity; repeat constructor.
+  - vm_compute. repeat split.
+Qed.
